@@ -36,6 +36,9 @@ CLAIMS = {
  "C13": ("must-pass-through from every change of the active set to a cache write before the lock is released; phi-source analysis of NewStore's want-flush flag; value identity of the flushed document (live map, one Write); who-may-write files in the client library with constant modes; JSON wire signatures of cache writer and file-client reader computed from go/types; control-dependence of NewStore's error returns; edge analysis of the validity gate",
          "Structural necessary conditions, decided on all paths: whenever the store installs, replaces or removes a value, and when its poller shuts down, the whole live map is marshalled and handed to the cache in one write; the file cache is replaced atomically with owner-only permissions; cache writer and file-backed reader agree on the record format (documented shape); NewStore never fails because of the cache and clears a partially decoded or invalid map before use; the validity gate rejects exactly the nil levels later code dereferences unchecked. Does not decide what encoding/json does with arbitrary bytes.",
          "encoding/json does not panic on malformed input; atomicfile.WriteFile is atomic (C04)", "4/C13"),
+ "C19": ("who-may-write on the active set (single post-publication removal site) with edge-dominance by the nil-marker and no-handle conditions; dependence of the expired flag on the expiry predicate; guard structure and operand identity of the predicate's comparison; must-pass-through of the access stamp in every handle read under the lock; JSON tags from go/types; who-may-write on Declared restricted to the pre-publication region",
+         "Structural necessary conditions, decided on all paths: a secret can leave the store only in the apply phase of a poll, only when the poll marked it expired and no handle exists; the mark is set only when the expiry predicate said so; the predicate can be true only for undeclared entries with a positive expiry age and then compares store-clock minus the entry's last access with the age, strictly; every read stamps the entry it returns; the stamp is persisted and the declaration is not; only configured names are ever marked declared, and only by the constructor. Does not decide clock arithmetic over histories.",
+         "time.Time.Sub / time.Unix as documented", "4/C19"),
  "C03": ("typestate on SSA CFG paths (mutation => save => tested error before any return), value-flow of the bytes handed to the file writer, edge-dominance on the open path, JSON wire-signature computed from go/types against the frozen v1 signature, reader/writer sibling agreement",
          "Structural necessary conditions, decided on all paths: no mutator of the persistent state can return without having called the file-writing save and tested its error; what is saved is the live map, wrapped as documented; opening writes only when the file does not exist; the v1 wire layout (keys, encodings, AEAD contexts, key template, schema constant) is unchanged and reader and writer agree. Does not decide state equality after arbitrary histories nor decoding of real old files.",
          "encoding/json encodes according to the computed shape; tink keyset reader/writer are inverse; the v1 layout is the one documented on db.kv", "4/C03"),
